@@ -2,6 +2,7 @@ package pure
 
 import (
 	"encoding/json"
+	"fmt"
 	"testing"
 
 	"cqosverif/internal/evid"
@@ -65,6 +66,32 @@ func TestC14(t *testing.T) {
 		Run: func(c DivCase) evid.Outcome {
 			nt, cl := DivShape(c)
 			return evid.Outcome{Err: CheckC14(c), NonTrivial: nt, Classes: cl, Summary: "see script"}
+		},
+	})
+}
+
+// TestC14Seq : the same oracle over short sequences of calls.
+func TestC14Seq(t *testing.T) {
+	evid.Run(t, evid.Prop[DivSeq]{
+		ID:   "C14",
+		Rule: "sequences of 2..5 divider calls in one process; a later call usually keeps the divider, the dividend, the length and the sum of the previous list and moves 1..3 units from one priority to another; every call is checked by the C14 oracle (conservation, order, tolerance, v1 == v2); non-trivial = at least one call repeats dividend, length and sum of its predecessor with another list; distinct = distinct case JSON",
+		Gen:  GenDivSeq,
+		Run: func(q DivSeq) evid.Outcome {
+			nt := false
+			for i := 1; i < len(q.Calls); i++ {
+				a, b := q.Calls[i-1], q.Calls[i]
+				if a.Dividend == b.Dividend && len(a.Prios) == len(b.Prios) && fmt.Sprint(a.Prios) != fmt.Sprint(b.Prios) {
+					sa, sb := uint(0), uint(0)
+					for _, p := range a.Prios {
+						sa += p
+					}
+					for _, p := range b.Prios {
+						sb += p
+					}
+					nt = nt || sa == sb
+				}
+			}
+			return evid.Outcome{Err: CheckDivSeq(q), NonTrivial: nt, Classes: []string{fmt.Sprintf("calls=%d", len(q.Calls))}, Summary: "see script"}
 		},
 	})
 }
